@@ -19,15 +19,15 @@ var Formats = []Format{JSON, UBJSON, CBOR}
 
 // GenOpts bound a generated value.
 type GenOpts struct {
-	MaxDepth  int
-	MaxElems  int // per container
-	Budget    int // total node budget
-	MaxStr    int // longest string
+	MaxDepth int
+	MaxElems int // per container
+	Budget   int // total node budget
+	MaxStr   int // longest string
 	// Supported restricts CBOR values to the library's documented subset.
 	TopContainer bool // top-level value must be a container
 }
 
-func QuickOpts() GenOpts   { return GenOpts{MaxDepth: 4, MaxElems: 5, Budget: 14, MaxStr: 80} }
+func QuickOpts() GenOpts    { return GenOpts{MaxDepth: 4, MaxElems: 5, Budget: 14, MaxStr: 80} }
 func ThoroughOpts() GenOpts { return GenOpts{MaxDepth: 40, MaxElems: 12, Budget: 60, MaxStr: 700} }
 
 var intBoundaries = []int64{0, 1, -1, 23, 24, -24, -25, 127, 128, -128, -129, 255, 256, -256, -257,
